@@ -216,7 +216,7 @@ class Inliner:
                         pass
                 mapping.pop(p, None)
         retname = "__h%d_ret" % k
-        body = [copy.deepcopy(s) for s in body]
+        body = comps_to_loops(unroll_displays([copy.deepcopy(s) for s in body]))
         if varargs is not None:
             body = self.unroll_varargs(body, varargs[0], varargs[1], fn)
         body = [_Subst(mapping, rename).visit(s) for s in body]
@@ -237,7 +237,28 @@ class Inliner:
     # ---- pieces ------------------------------------------------------------------------------------
     def returns_to_assign(self, body, retname, fn):
         """`return e` as the last statement (or last in both arms of a trailing if) becomes `<ret> = e`."""
+        def nest(stmts):
+            # `if c: A; return x` followed by B  ->  `if c: A; return x  else: B`  (what runs after the if runs only when c is false)
+            for i, s in enumerate(stmts):
+                if isinstance(s, ast.If):
+                    s2 = copy.copy(s)
+                    s2.body, s2.orelse = nest(list(s.body)), nest(list(s.orelse))
+                    b_ends = bool(s2.body) and isinstance(s2.body[-1], ast.Return)
+                    o_ends = bool(s2.orelse) and isinstance(s2.orelse[-1], ast.Return)
+                    rest = stmts[i + 1:]
+                    if rest and b_ends and not o_ends:
+                        s2.orelse = s2.orelse + nest(rest)
+                        return stmts[:i] + [s2]
+                    if rest and o_ends and not b_ends:
+                        s2.body = s2.body + nest(rest)
+                        return stmts[:i] + [s2]
+                    if b_ends and o_ends:
+                        return stmts[:i] + [s2]
+                    stmts = stmts[:i] + [s2] + rest
+            return stmts
+
         def conv(stmts):
+            stmts = nest(list(stmts))
             if not stmts:
                 return stmts + [self._assign(retname, ast.Constant(value=None), fn.node)]
             last = stmts[-1]
